@@ -1105,7 +1105,7 @@ impl<'a, 'b> Gen<'a, 'b> {
         let (first, second) = if self.t.chance(200) { ((i, rhs1), (j, rhs2)) } else { ((j, rhs2), (i, rhs1)) };
         let first_index = first.0;
         // the second write may sit in another basic block (inside a branch)
-        let split = self.t.chance(100);
+        let split = self.t.chance(140);
         for (n, (k, rhs)) in [first, second].into_iter().enumerate() {
             let ix = self.small_literal(k as u64);
             let lhs = Expr::Var { id: self.ids.next(), name: a.name.clone(), access: vec![Access::Index(ix)] };
@@ -1141,7 +1141,15 @@ impl<'a, 'b> Gen<'a, 'b> {
             let lhs = Expr::Var { id: self.ids.next(), name: x.name.clone(), access: vec![] };
             let read = Stmt::Assign { id: self.ids.next(), lhs, op: AssignOp::Var, rhs, reversed: false };
             let _ = first_index;
-            if read_between {
+            let x_was_assigned = self.assigned.contains(&x.key);
+            if split && x_was_assigned && self.t.chance(150) {
+                // the read sits in the branch, right behind the second write (`if (c) { a[j] = ..; x = a[k]; }`)
+                if let Some(Stmt::If { then, .. }) = stmts.last_mut() {
+                    if let Stmt::Block { stmts: inner, .. } = then.as_mut() {
+                        inner.push(read);
+                    }
+                }
+            } else if read_between {
                 // write, read of the element just written, second write
                 stmts.insert(1, read);
             } else {
